@@ -1,8 +1,8 @@
 (* C02 — File responses deliver exactly the requested bytes with truthful framing.
    Statements only.  [r] ranges over every request: any file content, any Range /
    If-Range text, method, chunk size, validator strings, content type, boundary. *)
-From Coq Require Import List NArith Arith.
-From Baize Require Import Lib.Wire Lib.Order C03.Model C02.Model C02.Proofs.
+From Coq Require Import List NArith Arith Permutation.
+From Baize Require Import Lib.Wire Lib.Order C03.Model C02.Model C02.Proofs Resp.Model C02.Reuse C02.ReuseProofs.
 Import ListNotations.
 
 (* WSGI: the concatenation of the yielded chunks is exactly the expected body
@@ -67,6 +67,93 @@ Theorem head_same_headers_empty_body : forall r : file_req,
   expected_body (with_head true r) = [].
 Proof. exact head_same_headers_proof. Qed.
 
+(* ---------- one FileResponse object answers many requests (C02/Reuse.v) ----------
+   [o] is the object (file, chunk size, validators, content type, disposition), [caller]
+   the headers= argument of its constructor, [hist] the requests it answered before,
+   oldest first, [q] the request (method, Range, If-Range, the boundary drawn for it, the
+   zero-copy offer), [i] the interface.  [answer_after fixed …]: fixed = true is the code
+   with 02f930e, fixed = false the code before it. *)
+
+(* A fresh object created without headers= is the single-request model above, header
+   order included — so the seven theorems above speak about the first answer of an
+   object, before and after 02f930e. *)
+Theorem reuse_fresh_is_single : forall (fixed : bool) (i : iface) (o : file_req) (q : req),
+  answer_after fixed i o [] [] q =
+  match i with
+  | IWsgi => RW (wsgi_file (with_req o q))
+  | IAsgi => RA (asgi_file (q_zc q) (with_req o q))
+  end.
+Proof. exact reuse_fresh_is_single_proof. Qed.
+
+(* History independence.  Whatever the object answered before, its answer is the answer of
+   a fresh object: the same status, the same chunks / messages after the start message in
+   the same order (reply_strip blanks the header list only), and the same header list AS A
+   MULTISET: a permutation — hence the same canonical (sorted) list, which is what the
+   observation line of the correspondence check prints —, without a repeated name, the
+   same value under every name.
+   (As a list it is not: the mapping keeps insertion order, a Content-Range that was
+   removed and written again moves to the end — Example ex_reuse_order in ReuseProofs.v.) *)
+Theorem reuse_history_independent :
+  forall (i : iface) (o : file_req) (caller : list header) (hist : list req) (q : req),
+  let a := answer_after true i o caller hist q in
+  let b := answer_after true i o caller [] q in
+  reply_strip a = reply_strip b /\
+  Permutation (reply_headers a) (reply_headers b) /\
+  sort_headers (reply_headers a) = sort_headers (reply_headers b) /\
+  NoDup (map fst (reply_headers a)) /\
+  (forall k, hget k (reply_headers a) = hget k (reply_headers b)).
+Proof. exact reuse_history_independent_proof. Qed.
+
+(* Framing after any history: the status is the single-request model's; Content-Range is
+   present exactly in a single-range 206 (with that range) and in 416 (as */size);
+   Content-Type is multipart/byteranges with this request's boundary exactly for several
+   ranges and the file's type for 200 / single range; Content-Length is the number of
+   body bytes a server obtains. *)
+Theorem reuse_framing_truthful :
+  forall (i : iface) (o : file_req) (caller : list header) (hist : list req) (q : req),
+  let r := with_req o q in
+  let a := answer_after true i o caller hist q in
+  reply_status a = Some (w_status (wsgi_file r)) /\
+  (forall v, In (k_cr, v) (reply_headers a) ->
+     (exists s e, decide r = Single s e /\ v = content_range s e (length (fr_file o))) \/
+     (decide r = Reject416 /\ v = lit "*/" ++ decn (length (fr_file o)))) /\
+  (forall s e, decide r = Single s e -> In (k_cr, content_range s e (length (fr_file o))) (reply_headers a)) /\
+  (forall v, In (k_ct, v) (reply_headers a) ->
+     (exists l, decide r = Several l /\ v = lit "multipart/byteranges; boundary=" ++ q_boundary q) \/
+     ((decide r = Whole \/ exists s e, decide r = Single s e) /\ v = fr_ctype o)) /\
+  (forall v, 1 <= fr_chunk o -> q_head q = false -> In (k_cl, v) (reply_headers a) ->
+     v = decn (length (reply_body (fr_file o) a))).
+Proof. exact reuse_framing_truthful_proof. Qed.
+
+(* The code before 02f930e: after a single-range request (1-3 of a 6 byte file) the 200
+   answer to a plain GET and the 206 multipart/byteranges answer carry
+   "content-range: bytes 1-3/6", on both interfaces; the repaired code carries none. *)
+Theorem reuse_orig_refuted :
+  exists (o : file_req) (q1 q2 q3 : req),
+    decide (with_req o q1) = Single 1 4 /\
+    decide (with_req o q2) = Whole /\
+    decide (with_req o q3) = Several [(0, 1); (2, 4)] /\
+    forall i,
+      (reply_status (answer_after false i o [] [q1] q2) = Some 200 /\
+       In (k_cr, lit "bytes 1-3/6") (reply_headers (answer_after false i o [] [q1] q2))) /\
+      (reply_status (answer_after false i o [] [q1] q3) = Some 206 /\
+       In (k_ct, lit "multipart/byteranges; boundary=BB") (reply_headers (answer_after false i o [] [q1] q3)) /\
+       In (k_cr, lit "bytes 1-3/6") (reply_headers (answer_after false i o [] [q1] q3))) /\
+      (forall v, ~ In (k_cr, v) (reply_headers (answer_after true i o [] [q1] q2))) /\
+      (forall v, ~ In (k_cr, v) (reply_headers (answer_after true i o [] [q1] q3))).
+Proof. exact reuse_orig_refuted_proof. Qed.
+
+(* … and not only there: before 02f930e, on every object and after every history, the
+   answer following a single-range answer carried that request's Content-Range whenever it
+   was a whole-file or several-ranges answer. *)
+Theorem reuse_orig_stale :
+  forall (i : iface) (o : file_req) (caller : list header) (hist : list req) (q1 q2 : req) (s e : nat),
+  decide (with_req o q1) = Single s e ->
+  (decide (with_req o q2) = Whole \/ exists l, decide (with_req o q2) = Several l) ->
+  In (k_cr, content_range s e (length (fr_file o)))
+     (reply_headers (answer_after false i o caller (hist ++ [q1]) q2)).
+Proof. exact reuse_orig_stale_proof. Qed.
+
 Print Assumptions wsgi_body_exact.
 Print Assumptions asgi_body_exact.
 Print Assumptions content_length_truthful.
@@ -74,3 +161,8 @@ Print Assumptions multipart_length_exact.
 Print Assumptions status_decision.
 Print Assumptions single_range_exact.
 Print Assumptions head_same_headers_empty_body.
+Print Assumptions reuse_fresh_is_single.
+Print Assumptions reuse_history_independent.
+Print Assumptions reuse_framing_truthful.
+Print Assumptions reuse_orig_refuted.
+Print Assumptions reuse_orig_stale.
